@@ -5,31 +5,31 @@ From RV Require Import Gen.SpirvData Gen.DumpSpirv.
 From RV Require Gen.RefSpirv.
 
 Lemma enums_wf : forallb wf_enum enums = true.
-Proof. vm_compute. reflexivity. Qed.
+Proof. vm_cast_no_check (eq_refl true). Qed.
 
 Lemma enums_fromstr_ok : forallb fromstr_ok enums = true.
-Proof. vm_compute. reflexivity. Qed.
+Proof. vm_cast_no_check (eq_refl true). Qed.
 
 Lemma enums_aliases_ok : forallb aliases_ok enums = true.
-Proof. vm_compute. reflexivity. Qed.
+Proof. vm_cast_no_check (eq_refl true). Qed.
 
 (** declared names, numeric values and aliases = the reference snapshot of the
     Khronos grammar (ref/spirv.json) *)
 Lemma enums_match_ref : list_eqb enum_values_eqb enums RefSpirv.enums = true.
-Proof. vm_compute. reflexivity. Qed.
+Proof. vm_cast_no_check (eq_refl true). Qed.
 
 Lemma flags_match_ref : list_eqb flags_eqb flags RefSpirv.flags = true.
-Proof. vm_compute. reflexivity. Qed.
+Proof. vm_cast_no_check (eq_refl true). Qed.
 
 Lemma flags_names_nodup : forallb (fun F => nodup_str (map fst (f_consts F))) flags = true.
-Proof. vm_compute. reflexivity. Qed.
+Proof. vm_cast_no_check (eq_refl true). Qed.
 
 (** the translated model agrees with the compiled crate on every probe *)
 Lemma dump_enums_agree : forallb (enum_probes_ok enums) enum_probes = true.
-Proof. vm_compute. reflexivity. Qed.
+Proof. vm_cast_no_check (eq_refl true). Qed.
 
 Lemma dump_flags_agree : forallb (flags_probes_ok flags) flags_probes = true.
-Proof. vm_compute. reflexivity. Qed.
+Proof. vm_cast_no_check (eq_refl true). Qed.
 
 Lemma dump_covers_all :
   list_eqb str_eqb (map (fun r => fst (fst r)) enum_probes) (map e_name enums) = true
